@@ -227,6 +227,9 @@ def table_task(task):
             # sample names in the loader's order (plain string sort), some with embedded numbers of different lengths
             samples = sorted([["S0", "S1", "S2"], ["T5", "T12", "T101"], ["10", "9", "100"], ["s_b", "s_B", "s_a"]][c % 4][:D])
             data = gen.make_data(rng, n, D, G, kind="smooth")
+            if c % 5 == 2 and not many:
+                for dp in data:
+                    dp.name = "EGFR\u00b7p.L%dR_%s" % (858 + dp.idx, dp.name)  # more bytes than characters
             clusters = None
             if clustered:
                 # data points are clusters named by their integer id; a cluster table maps 1-3 mutations to each
